@@ -30,7 +30,7 @@ RULE = "case = one program (object set, seeds, interleaving); non-trivial when >
 ASSUMPTIONS = ["same seed and parameters => same stream (numpy PCG64 is deterministic across processes)"]
 REQUIRED = ["phasescreen.py:ft_phase_screen", "phasescreen.py:ft_sh_phase_screen", "infinitephasescreen.py:PhaseScreen.make_initial_screen",
             "infinitephasescreen.py:PhaseScreen.add_row", "profile_compression.py:optimal_grouping"]
-REQUIRED_COUNTERS = ["isolated_oracle_runs", "outputs_compared", "hostile_actions", "global_state_checks", "unseeded_pairs"]
+REQUIRED_COUNTERS = ["forked_sibling_comparisons", "isolated_oracle_runs", "outputs_compared", "hostile_actions", "global_state_checks", "unseeded_pairs"]
 TIMEOUT = {"quick": 1200, "thorough": 7200}
 
 
@@ -190,6 +190,65 @@ def run_program(ctx, aotools, rng, pid):
               "two unseeded calls are identical when NumPy's global generator is put in the same state before each", wit)
 
 
+def forked_unseeded(ctx, aotools, rng):
+    """Unseeded screens made by sibling processes forked from this one (after aotools was imported) must differ."""
+    import multiprocessing as mp
+    c = mp.get_context("fork")
+    q = c.Queue()
+    u = [{"kind": "ft", "params": {"N": 12, "delta": 0.1, "r0": 0.2, "L0": 20.0, "l0": 0.01}, "seed": None},
+         {"kind": "ftsh", "params": {"N": 12, "delta": 0.1, "r0": 0.2, "L0": 20.0, "l0": 0.01}, "seed": None},
+         {"kind": "vk", "params": {"nx": 8, "ps": 0.1, "r0": 0.2, "L0": 20.0, "extra": 2}, "seed": None},
+         {"kind": "fried", "params": {"nx": 8, "ps": 0.1, "r0": 0.2, "L0": 20.0, "extra": 1}, "seed": None}]
+
+    def child(tag):
+        out = []
+        for spec_ in u:
+            o = isolated.create(aotools, spec_)
+            d = digest(isolated.output_of(o))
+            if spec_["kind"] in ("vk", "fried"):
+                o.add_row()
+                d += digest(isolated.output_of(o))
+            out.append(d)
+        q.put((tag, out))
+
+    procs = [c.Process(target=child, args=(k,)) for k in range(3)]
+    [p.start() for p in procs]
+    got = {}
+    for _ in procs:
+        try:
+            tag, out = q.get(timeout=120)
+            got[tag] = out
+        except Exception:
+            break
+    for p in procs:
+        p.join(5)
+        if p.is_alive():
+            p.terminate()
+    ctx.case("forked_unseeded", key=("fork", ctx.shard, ctx.seed), nontrivial=True, sample={"children": len(got)})
+    if len(got) < 3:
+        ctx.note("forked children did not all report: %d of 3" % len(got))
+        return
+    ctx.count("forked_sibling_comparisons")
+    for k, spec_ in enumerate(u):
+        ds = [got[t][k] for t in sorted(got)]
+        ctx.count("unseeded_pairs")
+        ctx.check(len(set(ds)) == len(ds), "unseeded_calls_identical_across_forked_processes:" + spec_["kind"],
+                  "sibling processes forked after import produced identical unseeded %s screens" % spec_["kind"], {"kind": spec_["kind"]})
+
+
+def congruent_seeds(ctx, aotools, rng):
+    """Seeds that differ by a multiple of 2^32 / 2^64 are different seeds."""
+    s0 = int(rng.integers(0, 2 ** 31))
+    for kind, params in (("vk", {"nx": 8, "ps": 0.1, "r0": 0.2, "L0": 20.0, "extra": 2}), ("fried", {"nx": 8, "ps": 0.1, "r0": 0.2, "L0": 20.0, "extra": 1}),
+                         ("ft", {"N": 12, "delta": 0.1, "r0": 0.2, "L0": 20.0, "l0": 0.01}), ("ftsh", {"N": 12, "delta": 0.1, "r0": 0.2, "L0": 20.0, "l0": 0.01})):
+        ds = []
+        for s in (s0, s0 + 2 ** 32, s0 + 2 ** 33, s0 + 2 ** 64, s0 + 1):
+            ds.append(digest(isolated.output_of(isolated.create(aotools, {"kind": kind, "params": params, "seed": {"int": s}}))))
+        ctx.case("congruent_seeds:" + kind, key=(kind, s0), nontrivial=True)
+        ctx.check(len(set(ds)) == len(ds), "different_seeds_same_screen:congruent_mod_2^32:" + kind,
+                  "seeds %d, %d + 2^32, + 2^33, + 2^64, + 1 do not all give different %s screens" % (s0, s0, kind), {"kind": kind, "seed": s0})
+
+
 def run_threaded(ctx, aotools, rng, pid):
     import sys
     nthreads = 4
@@ -263,7 +322,11 @@ def run_threaded(ctx, aotools, rng, pid):
 def run(ctx, spec):
     import aotools
     rng = ctx.rng
+    if spec["shard"] % 4 == 0:
+        # first thing in the process: numba's OpenMP layer is not fork-safe once the parent has used it
+        forked_unseeded(ctx, aotools, rng)
     for p in range(spec["programs"]):
         run_program(ctx, aotools, rng, p)
     for p in range(spec["threaded"]):
         run_threaded(ctx, aotools, rng, p)
+    congruent_seeds(ctx, aotools, rng)
